@@ -2,10 +2,11 @@
    oracles of this property rest on, regenerated from /repo on every run, equal the reviewed ones:
      - group wiring (which output feeds which input, as OpenMDAO resolves it) of the canonical models of: AeroPoint, AerostructPoint, SpatialBeamAlone
      - unit contract (declared units of every input / output) of the classes in: -
-   An edit that re-wires a group or drops / changes a unit in these areas breaks the obligation; the oracles of the property
-   then look for the failing input. *)
+     - option defaults of the classes in: geometry
+   An edit that re-wires a group, drops / changes a unit or changes a default in these areas breaks the obligation; the oracles of
+   the property then look for the failing input. *)
 From Coq Require Import String List Bool.
-From OAS Require Import Wiring WiringReviewed IOUnits IOUnitsReviewed Tie_wiring_AeroPoint Tie_wiring_AerostructPoint Tie_wiring_SpatialBeamAlone.
+From OAS Require Import Wiring WiringReviewed IOUnits IOUnitsReviewed OptionDefaults OptionDefaultsReviewed Tie_wiring_AeroPoint Tie_wiring_AerostructPoint Tie_wiring_SpatialBeamAlone Tie_options_geometry.
 Import ListNotations.
 
 Theorem C07_wiring_of_AeroPoint_models_is_the_reviewed_one :
@@ -22,3 +23,8 @@ Theorem C07_wiring_of_SpatialBeamAlone_models_is_the_reviewed_one :
   wiring_family_SpatialBeamAlone gen_wiring = wiring_family_SpatialBeamAlone reviewed_wiring /\ wiring_family_SpatialBeamAlone reviewed_wiring <> [].
 Proof. split; [exact wiring_SpatialBeamAlone_reviewed | exact wiring_SpatialBeamAlone_nonempty]. Qed.
 Print Assumptions C07_wiring_of_SpatialBeamAlone_models_is_the_reviewed_one.
+
+Theorem C07_option_defaults_of_geometry_are_the_reviewed_ones :
+  options_dir_geometry gen_option_defaults = options_dir_geometry reviewed_option_defaults /\ options_dir_geometry reviewed_option_defaults <> [].
+Proof. split; [exact options_geometry_reviewed | exact options_geometry_nonempty]. Qed.
+Print Assumptions C07_option_defaults_of_geometry_are_the_reviewed_ones.
